@@ -95,7 +95,9 @@ func (c *ShipConnection) reportState(state model.ShipState) {
 	c.reportMux.Lock()
 	defer c.reportMux.Unlock()
 
-	if c.closeReported {
+	// CloseConnection is on its way in another goroutine (the loser of a double connection
+	// whose write just failed): what this handler still concludes is of no interest either
+	if c.closeReported || c.isClosed() {
 		return
 	}
 
